@@ -55,6 +55,37 @@ def gen_path_prog(r, illtyped):
 
     def pt():
         return (r.choice([0, 10, 20, 30, Fr(5, 2), -10, 100]), r.choice([0, 10, 20, 30, Fr(15, 4), -10, 50]))
+    if not illtyped and r.random() < 0.3:
+        # save/restore focus: every graphics-state parameter set, saved, changed, painted, restored, painted again
+        def setall():
+            if r.random() < 0.8:
+                op("w", r.choice([0, 1, 2, Fr(1, 2), 10]))
+            if r.random() < 0.8:
+                op("d", r.choice([[], [3], [2, 1], [Fr(1, 2), 4]]), r.choice([0, 1, 2]))
+            if r.random() < 0.8:
+                op(r.choice(["g", "G"]), r.choice([0, 1, Fr(1, 2)]))
+            if r.random() < 0.6:
+                op(r.choice(["rg", "RG"]), *[r.choice([0, 1, Fr(1, 4)]) for _ in range(3)])
+
+        def paint():
+            op("m", *pt())
+            op("l", *pt())
+            if r.random() < 0.5:
+                op("l", *pt())
+            op(r.choice(["S", "B", "s", "f"]))
+        setall()
+        for _ in range(r.randint(1, 3)):
+            op("q")
+            setall()
+            paint()
+            if r.random() < 0.3:
+                op("q")
+                setall()
+                paint()
+                op("Q")
+            op("Q")
+            paint()
+        return prog
     for _ in range(r.randint(3, 14)):
         k = r.random()
         if illtyped and r.random() < 0.1:
@@ -272,10 +303,19 @@ def correspondence(ctx):
             except Exception:
                 want = None
             if want is not None:
+                def ndash(dv):
+                    """the dash pattern as ([lengths], phase), None when never set"""
+                    if not dv:
+                        return None
+                    arr, ph = dv
+                    if isinstance(arr, list) and len(arr) == 2 and arr[0] == 3:        # observed: [3, [[0, x], ...]]
+                        arr, ph = [x[1] for x in arr[1]], ph[1]
+                    return ([float(x) for x in arr], float(ph))
+
                 def norm(ws):
-                    return [(w[0], [(float(x), float(y)) for x, y in w[1]], w[2], w[3], w[4], float(w[5]),
+                    return [(w[0], [(float(x), float(y)) for x, y in w[1]], w[2], w[3], w[4], float(w[5]), ndash(w[6]),
                              [float(x) for x in (w[7] or ())], [float(x) for x in (w[8] or ())]) for w in ws]
-                obs = [(e[1], [tuple(p) for p in e[2]], bool(e[3]), bool(e[4]), bool(e[5]), e[6], e[8], e[9]) for e in shapes]
+                obs = [(e[1], [tuple(p) for p in e[2]], bool(e[3]), bool(e[4]), bool(e[5]), e[6], ndash(e[7]), e[8], e[9]) for e in shapes]
                 exp, expk = norm(want), norm(want_known)
                 if obs != exp:
                     if obs == expk:
